@@ -5,7 +5,7 @@ Usage: run_mutants.py [--tests] [--tier quick] [name-substring ...]"""
 import json, os, re, shutil, subprocess, sys, time
 
 VERIF = os.path.dirname(os.path.dirname(os.path.abspath(__file__)))
-WT = "/tmp/cproc-mutant-wt"
+WT = os.environ.get("MUTANT_WT", "/tmp/cproc-mutant-wt")
 
 
 def sh(cmd, **kw):
@@ -36,7 +36,7 @@ def main():
     if r.returncode:
         print(r.stdout)
         return 2
-    env = dict(os.environ, CPROC_REPO=WT, VERIF_EVIDENCE_DIR="/tmp/cproc-mutant-evidence", VERIF_REPLAY_DIR="/tmp/cproc-mutant-replays")
+    env = dict(os.environ, CPROC_REPO=WT, VERIF_EVIDENCE_DIR=WT + "-evidence", VERIF_REPLAY_DIR=WT + "-replays")
     results = []
     try:
         for name, path in muts:
@@ -73,8 +73,8 @@ def main():
             sh(["git", "-C", WT, "clean", "-qfdx"])
     finally:
         sh(["git", "-C", "/repo", "worktree", "remove", "--force", WT])
-        shutil.rmtree("/tmp/cproc-mutant-evidence", ignore_errors=True)
-        shutil.rmtree("/tmp/cproc-mutant-replays", ignore_errors=True)
+        shutil.rmtree(WT + "-evidence", ignore_errors=True)
+        shutil.rmtree(WT + "-replays", ignore_errors=True)
     n = sum(1 for _, s in results if s == "caught")
     print("caught %d of %d" % (n, len(results)))
     return 0
